@@ -9,6 +9,7 @@ import (
 	"context"
 	"fmt"
 	"net"
+	"reflect"
 	"sync"
 	"time"
 
@@ -642,10 +643,16 @@ func (sn *stepNode) timeoutCheck() bool {
 // reconnect mirrors: connection lost/timed out -> phased shutdown of threads -> save -> Reset ->
 // next loop iteration connects again (same Node object).
 func (sn *stepNode) reconnect() {
+	sn.node.txTracker.Stop() // Run: "This will reduce network messages", first thing of the phased shutdown
 	for sn.txStep() {
 	}
 	sn.saveAll()
 	sn.node.state.Reset()
+	// Run's restart tail re-enables the tracker after Reset (since fix 'tx tracker stays stopped after
+	// a restart'); on a tree without that method the tracker stays stopped, as Run leaves it there
+	if m := reflect.ValueOf(sn.node.txTracker).MethodByName("Start"); m.IsValid() {
+		m.Call(nil)
+	}
 	sn.blockThreadDead = ""
 	sn.txThreadDead = ""
 	sn.reconnects++
